@@ -16,6 +16,7 @@ from habutax.forms import available_forms
 ADV_TEXT = "Ann (Lee) O'Neil \\ Jr"
 ADV_TEXT2 = "#4B ; rear = 5 : [x]"
 ADV_TEXT3 = "50% (net)"
+ADV_TEXT4 = "100%% organic (50%%)"        # escaped percent signs: what an INI file holds for the text 100% organic (50%)
 
 
 # --------------------------------------------------------------------------
@@ -310,7 +311,7 @@ def alphabet(inp, pair=False):
     if isinstance(inp, (hi.SSNInput, hi.RegexInput)):
         return []
     if isinstance(inp, hi.StringInput):
-        return ['x', ADV_TEXT, ADV_TEXT2, ADV_TEXT3] if not pair else []
+        return ['x', ADV_TEXT, ADV_TEXT2, ADV_TEXT3, ADV_TEXT4] if not pair else []
     return []
 
 
